@@ -85,6 +85,27 @@ theorem name_accepted_bytes_safe :
     already-linked test sees is what Resolve would answer -/
 theorem read_limits_agree : resolveReadLimit = linkReadLimit ∧ 0 < resolveReadLimit := by decide
 
+/-- the tree's `readAndSum` refuses a file longer than the limit (fix dd73d5483, finding F28) and its `copyNamedFile` refuses
+    a negative size (fix 9e5c18b2f, finding F29): the all-fixed variant is the EXPECTED one; if a probe finds either gone,
+    this stops compiling (next to `variant-regression`) -/
+theorem tree_read_strict_and_neg_refused : readStrict = true ∧ negRefused = true := by decide
+
+/-- **Resolve returns the digest of exactly the bytes linked, for the tree's `Resolve`, for EVERY manifest size**: whatever
+    digest it answers is the hash of the whole manifest file (an oversize manifest is an error, not a prefix digest) -/
+theorem tree_resolve_hash_of_whole_file (hash : Bytes → Digest) (k : Disk) (name : Bytes) (d' : Digest)
+    (hnd : (splitNameDigest name).2 = [])
+    (h : (resolveL hash readStrict resolveReadLimit k name).2 = .digest d') :
+    ∃ want file, nameToPath (splitNameDigest name).1 = some want ∧
+      manGet k.mans (manifestPathOf k.mans want) = some file ∧ d' = hash file := by
+  rw [tree_read_strict_and_neg_refused.1] at h
+  exact OllamaVerif.C08.resolveL_strict_hash_of_whole_file hash resolveReadLimit k name d' hnd h
+
+/-- a negative-size `Put` touches nothing in the tree's cache -/
+theorem tree_putNeg_noop (k : Disk) (d : Digest) (s : Script) :
+    (putNeg negRefused k d s).1.blob d = k.blob d ∧ (putNeg negRefused k d s).2 = .negSize := by
+  rw [tree_read_strict_and_neg_refused.2]
+  simp [putNeg, copyNamedNegEffs, run, OllamaVerif.C08.setBlob_same]
+
 theorem manGet_mem (mans : List (MPath × Bytes)) (p : MPath) (file : Bytes) (h : manGet mans p = some file) :
     ∃ e ∈ mans, e.2 = file := by
   unfold manGet at h
